@@ -33,14 +33,14 @@ def concat_app(ex, st, instances, path, n):
     return Sym("seq", t, Spec("seq", Spec("val")))
 
 
-@contract("pyanalyze.options.ConfigOption.is_applicable_to", props=["C18"])
+@contract("pyanalyze.options.ConfigOption.is_applicable_to", props=["C18", "C11"])   # C11: which instance of an error-code option applies to a module decides enablement
 def _(c):
     c.param("module_path", "tuple[str]")
     c.returns("bool")
     c.ensures("result == applicable(self, module_path)", name="prefix")
 
 
-@contract("pyanalyze.options.ConfigOption.sort_key", props=["C18"])
+@contract("pyanalyze.options.ConfigOption.sort_key", props=["C18", "C11"])   # C11: which instance of an error-code option applies to a module decides enablement
 def _(c):
     c.returns("tuple")
     c.ensures("len(result) == 3", name="arity")
@@ -49,7 +49,7 @@ def _(c):
     c.ensures("result[2] == -len(self.applicable_to)", name="longest_first")
 
 
-@contract("pyanalyze.options.ConfigOption.get_value_from_instances", props=["C18"])
+@contract("pyanalyze.options.ConfigOption.get_value_from_instances", props=["C18", "C11"])   # C11: which instance of an error-code option applies to a module decides enablement
 def _(c):
     c.param("instances", "seq[obj:ConfigOption]")
     c.param("module_path", "tuple[str]")
